@@ -389,6 +389,10 @@ func (conn *Conn) read(ctx *Context, async bool) {
 					return
 				}
 			} else if u.Stream == openStream {
+				// Messages may follow the acknowledgement at once: switch the
+				// stream to streaming here, before the next frame is read.
+				u.NoRequest = 0
+				u.Stream = streaming
 				call.done()
 			}
 			conn.bufferPool.PutBuffer(ctx.buffer)
